@@ -311,4 +311,703 @@ structural recursions on the text, so the scan also terminates.) -/
 theorem scan_never_panics : ∀ (s : List Char) (site : String), scanText s ≠ .panic site :=
   fun s => scanCP_np (s.map Char.toNat)
 
+/-! ### Agreement with the strict grammar: the pieces -/
+
+open C04Grammar in
+/-- a digit string is a run of zeros followed by its significant part -/
+theorem zeros_split (ds : Bytes) :
+    ∃ k, ds = List.replicate k 48 ++ ds.dropWhile (· == 48) ∧
+      k + (ds.dropWhile (· == 48)).length = ds.length := by
+  induction ds with
+  | nil => exact ⟨0, rfl, rfl⟩
+  | cons b t ih =>
+    rw [List.dropWhile_cons]
+    split
+    · rename_i hb
+      have : b = 48 := by simpa using hb
+      subst this
+      obtain ⟨k, hk, hl⟩ := ih
+      refine ⟨k + 1, ?_, ?_⟩
+      · rw [List.replicate_succ, List.cons_append, ← hk]
+      · simp only [List.length_cons]; omega
+    · exact ⟨0, rfl, by simp⟩
+
+/-- the significant part does not begin with a zero -/
+theorem dropZeros_head (ds : Bytes) : (ds.dropWhile (· == 48)).head? ≠ some 48 := by
+  induction ds with
+  | nil => simp
+  | cons b t ih =>
+    rw [List.dropWhile_cons]
+    split
+    · exact ih
+    · rename_i hb
+      simpa using hb
+
+theorem dropZeros_digits (ds : Bytes) (h : ∀ b ∈ ds, isDigitB b = true) :
+    ∀ b ∈ ds.dropWhile (· == 48), isDigitB b = true :=
+  fun b hb => h b (List.Sublist.mem hb (List.dropWhile_sublist _))
+
+/-- the zero loop stops at once at a character that is not `0` -/
+theorem zeroLoop_nonzero (neg : Bool) (d : Nat) (t : List Nat) (rdx : Bool) (z : Nat) (hd : d ≠ 48) :
+    zeroLoop neg (d :: t) rdx z = .cont (d :: t) rdx z := by
+  cases t <;> simp [zeroLoop, hd]
+
+theorem zeroLoop_head (neg : Bool) (r : List Nat) (rdx : Bool) (z : Nat) (h : r.head? ≠ some 48) :
+    zeroLoop neg r rdx z = .cont r rdx z := by
+  rcases r with _ | ⟨d, t⟩
+  · rfl
+  · exact zeroLoop_nonzero neg d t rdx z (by simpa using h)
+
+/-- what the zero loop does once the last `0` of a run has been passed (`z'` = the count so far) -/
+def afterZeros (neg : Bool) (rest : List Nat) (rdx : Bool) (z' : Nat) : ZeroSkip :=
+  match rest with
+  | [] => .done (.zero neg (-((min z' 6176 : Nat) : Int)))
+  | d :: t2 =>
+    if d == 46 then
+      if !rdx then
+        if t2.isEmpty then
+          if z' ≤ 6176 then .done (.zero neg (-(z' : Int)))
+          else .done (.panic "line 344: u64 subtraction below zero")
+        else zeroLoop neg t2 true z'
+      else .done (.nan neg)
+    else .cont (d :: t2) rdx z'
+
+/-- the zero loop on a run of `k + 1` zeros followed by something else -/
+theorem zeroLoop_zeros (neg : Bool) (rest : List Nat) (h : rest.head? ≠ some 48) (k : Nat) :
+    ∀ rdx z, zeroLoop neg (List.replicate (k + 1) 48 ++ rest) rdx z =
+      afterZeros neg rest rdx (if rdx then z + (k + 1) else z) := by
+  induction k with
+  | zero =>
+    intro rdx z
+    rcases rest with _ | ⟨d, t2⟩
+    · simp [zeroLoop, afterZeros]
+    · have hd : d ≠ 48 := by simpa using h
+      simp only [List.replicate_one, List.singleton_append, Nat.zero_add]
+      rw [zeroLoop]
+      simp only [bne_self_eq_false, Bool.false_eq_true, if_false, afterZeros]
+      rw [zeroLoop_nonzero neg d t2 _ _ hd]
+  | succ k ih =>
+    intro rdx z
+    rw [List.replicate_succ, List.cons_append]
+    generalize hq : List.replicate (k + 1) 48 ++ rest = q
+    have hq' : ∃ q', q = 48 :: q' := ⟨List.replicate k 48 ++ rest, by rw [← hq, List.replicate_succ]; rfl⟩
+    obtain ⟨q', rfl⟩ := hq'
+    rw [zeroLoop]
+    simp only [bne_self_eq_false, Bool.false_eq_true, if_false, show ((48 : Nat) == 46) = false from rfl]
+    rw [← hq, ih]
+    cases rdx
+    · simp
+    · simp only [if_true]
+      rw [show z + 1 + (k + 1) = z + (k + 1 + 1) by omega]
+
+/-- a digit loop on a run of digits that fits into `buffer` stores all of them -/
+theorem collectDigits_run (ds : Bytes) (hds : ∀ b ∈ ds, isDigitB b = true) (rest : List Nat)
+    (hr : ∀ b, rest.head? = some b → isDigitB b = false) :
+    ∀ n buf st, n + ds.length ≤ 100 →
+      collectDigits (ds ++ rest) n buf st = .ok ⟨rest, n + ds.length, buf ++ ds, st⟩ := by
+  induction ds with
+  | nil =>
+    intro n buf st _
+    rcases rest with _ | ⟨c, t⟩
+    · simp [collectDigits]
+    · have := hr c rfl
+      simp [collectDigits, this]
+  | cons d t ih =>
+    intro n buf st hn
+    have hd : isDigitB d = true := hds d (by simp)
+    have hn' : n < 100 := by simp only [List.length_cons] at hn; omega
+    have ih' := ih (fun b hb => hds b (by simp [hb])) (n + 1) (buf ++ [d]) st
+      (by simp only [List.length_cons] at hn; omega)
+    rw [List.cons_append, collectDigits]
+    simp only [hd, Bool.not_true, Bool.false_eq_true, if_false, bufSet, hn', if_true]
+    have e1 : n + 1 + t.length = n + (d :: t).length := by simp only [List.length_cons]; omega
+    have e2 : buf ++ [d] ++ t = buf ++ d :: t := by simp
+    split <;> rw [ih', e1, e2]
+
+/-- the exponent loop on a run of at most `7 − i` digits reads all of them -/
+theorem expLoop_run (ds : Bytes) (hds : ∀ b ∈ ds, isDigitB b = true) :
+    ∀ (i : Nat) (acc : Int), i + ds.length ≤ 7 →
+      expLoop ds i acc = .ok (acc * 10 ^ ds.length + (digitsVal ds : Int)) := by
+  induction ds with
+  | nil => intro i acc _; simp [expLoop, digitsVal]
+  | cons d t ih =>
+    intro i acc hi
+    have hd : isDigitB d = true := hds d (by simp)
+    have hi' : i < 7 := by simp only [List.length_cons] at hi; omega
+    have hd9 : d - 48 ≤ 9 := by
+      simp only [isDigitB, Bool.and_eq_true, decide_eq_true_eq] at hd; omega
+    rw [expLoop, reDigit_eq]
+    simp only [hd, if_true, toDigit10, hd9, hi', decide_true, Bool.and_self]
+    rw [ih (fun b hb => hds b (by simp [hb])) (i + 1) _ (by simp only [List.length_cons] at hi; omega)]
+    rw [digitsVal_cons, List.length_cons]
+    congr 1
+    push_cast
+    grind
+
+/-- a digit string that does not begin with `0` denotes at least `10^(length − 1)` -/
+theorem digitsVal_ge (d : Nat) (t : Bytes) (hd : isDigitB d = true) (h0 : d ≠ 48) :
+    10 ^ t.length ≤ digitsVal (d :: t) := by
+  rw [digitsVal_cons]
+  have h1 : 1 ≤ d - 48 := by
+    simp only [isDigitB, Bool.and_eq_true, decide_eq_true_eq] at hd; omega
+  exact Nat.le_trans (Nat.le_mul_of_pos_left _ h1) (Nat.le_add_right _ _)
+
+/-- a digit string without leading zero whose value is below `10^6` has at most 6 digits -/
+theorem length_le_six (ds : Bytes) (hds : ∀ b ∈ ds, isDigitB b = true) (h0 : ds.head? ≠ some 48)
+    (hv : digitsVal ds < 1000000) : ds.length ≤ 6 := by
+  rcases ds with _ | ⟨d, t⟩
+  · simp
+  · have hge := digitsVal_ge d t (hds d (by simp)) (by simpa using h0)
+    by_cases ht : t.length ≤ 5
+    · simp only [List.length_cons]; omega
+    · exfalso
+      have : 10 ^ 6 ≤ 10 ^ t.length := Nat.pow_le_pow_right (by decide) (by omega)
+      omega
+
+open C04Grammar
+
+/-- **The exponent part.**  On the exponent part of a well-formed text (`E`/`e`, optional sign, digits) the scanner
+reads the signed value of the digits — provided that value is below `10^6`: the code reads one digit, skips zeros if
+that digit was `0`, and then reads at most six more digits, ignoring whatever follows. -/
+theorem scanExp_expBytes (x : Option ExpShape) (hx : expWF x)
+    (hv : ∀ y, x = some y → digitsVal y.digits < 1000000) :
+    scanExp (expBytes x) = .ok (some (expVal x)) := by
+  rcases x with _ | ⟨up, sg, ds⟩
+  · rfl
+  · obtain ⟨hne, hds⟩ : ds ≠ [] ∧ ∀ b ∈ ds, isDigitB b = true := hx
+    have hv' : digitsVal ds < 1000000 := hv _ rfl
+    rcases ds with _ | ⟨d0, r3⟩
+    · exact absurd rfl hne
+    · have hd0 : isDigitB d0 = true := hds d0 (by simp)
+      have hr3 : ∀ b ∈ r3, isDigitB b = true := fun b hb => hds b (by simp [hb])
+      have hd0' : 48 ≤ d0 ∧ d0 ≤ 57 := by
+        simpa only [isDigitB, Bool.and_eq_true, decide_eq_true_eq] using hd0
+      have hbad : expHeadBad (signBytes sg ++ d0 :: r3) = false := by
+        rcases sg with _ | _ | _ <;> simp [signBytes, expHeadBad, hd0]
+      have hsign : expSign (signBytes sg ++ d0 :: r3) = (sg == some true, d0 :: r3) := by
+        rcases sg with _ | _ | _
+        · have h45 : d0 ≠ 45 := by omega
+          have h43 : d0 ≠ 43 := by omega
+          simp [signBytes, expSign, h45, h43]
+        · simp [signBytes, expSign]
+        · simp [signBytes, expSign]
+      have hE : ((if up then 69 else 101 : Nat) != 101 && (if up then 69 else 101 : Nat) != 69) = false := by
+        cases up <;> decide
+      have key : expLoop (if ((d0 : Int) - 48 == 0) = true then r3.dropWhile (· == 48) else r3) 1 ((d0 : Int) - 48) =
+          .ok ((digitsVal (d0 :: r3) : Nat) : Int) := by
+        by_cases h48 : d0 = 48
+        · subst h48
+          have hr4 := dropZeros_digits r3 hr3
+          have hval : digitsVal (r3.dropWhile (· == 48)) = digitsVal (48 :: r3) := by
+            rw [digitsVal_dropZeros, digitsVal_cons]; simp
+          have hlen := length_le_six _ hr4 (dropZeros_head r3) (by rw [hval]; exact hv')
+          simp only [show (((48 : Nat) : Int) - 48 == 0) = true from by decide, if_true]
+          rw [expLoop_run _ hr4 1 _ (by omega), hval]
+          simp
+        · have hne0 : ((d0 : Int) - 48 == 0) = false := by
+            rw [beq_eq_false_iff_ne]; omega
+          simp only [hne0, Bool.false_eq_true, if_false]
+          have hge := digitsVal_ge d0 r3 hd0 h48
+          have hlen : r3.length ≤ 5 := by
+            by_cases ht : r3.length ≤ 5
+            · exact ht
+            · exfalso
+              have : 10 ^ 6 ≤ 10 ^ r3.length := Nat.pow_le_pow_right (by decide) (by omega)
+              omega
+          rw [expLoop_run r3 hr3 1 _ (by omega), digitsVal_cons]
+          have hc : ((d0 - 48 : Nat) : Int) = (d0 : Int) - 48 := by omega
+          push_cast
+          rw [hc]
+      simp only [expBytes, ExpShape.bytes, scanExp, hE, hbad, hsign, Bool.false_eq_true, if_false, expDigits, key,
+        expVal, ExpShape.val]
+
+/-! ### Agreement with the strict grammar: the digit phases -/
+
+/-- what is known about the text `E` that follows the digits: the exponent scan succeeds with value `e`, and `E`
+is empty or begins with the exponent letter -/
+structure ExpTail (E : Bytes) (e : Int) : Prop where
+  scan : scanExp E = .ok (some e)
+  head : ∀ b, E.head? = some b → b = 69 ∨ b = 101
+
+theorem ExpTail.nondigit {E : Bytes} {e : Int} (h : ExpTail E e) : ∀ b, E.head? = some b → isDigitB b = false := by
+  intro b hb
+  rcases h.head b hb with rfl | rfl <;> decide
+
+theorem ExpTail.ne48 {E : Bytes} {e : Int} (h : ExpTail E e) : E.head? ≠ some 48 := by
+  intro hb
+  rcases h.head 48 hb with h | h <;> cases h
+
+theorem expTail_of_shape (x : Option ExpShape) (hx : expWF x)
+    (hv : ∀ y, x = some y → digitsVal y.digits < 1000000) : ExpTail (expBytes x) (expVal x) := by
+  refine ⟨scanExp_expBytes x hx hv, ?_⟩
+  rcases x with _ | ⟨up, sg, ds⟩
+  · simp [expBytes]
+  · intro b hb
+    cases up <;> simp [expBytes, ExpShape.bytes] at hb <;> omega
+
+/-- the rest of `scanBody` after the zero loop -/
+def resume (neg : Bool) : ZeroSkip → ScanOutcome
+  | .done o => o
+  | .cont r rdx z => scanDigits neg r rdx z
+
+theorem scanBody_cons (neg : Bool) (c : Nat) (t : List Nat) (h : (c != 46 && aboveNine c) = false) :
+    scanBody neg (c :: t) = resume neg (zeroLoop neg (if c == 46 then t else c :: t) (c == 46) 0) := by
+  unfold scanBody
+  simp only [h, Bool.false_eq_true, if_false]
+  cases zeroLoop neg (if (c == 46) = true then t else c :: t) (c == 46) 0 <;> rfl
+
+theorem finishScan_tail (neg : Bool) (nb : Nat) (buf : Bytes) (st : Bool) (z : Nat) {E : Bytes} {e : Int}
+    (hE : ExpTail E e) :
+    finishScan neg nb buf st z E =
+      .number { neg := neg, intDigits := buf.take nb, fracDigits := List.replicate z 48 ++ buf.drop nb,
+                exp := e + ((nb - (buf.take nb).length : Nat) : Int) } st := by
+  unfold finishScan
+  rw [hE.scan]
+
+/-- digits after a point that was met while skipping zeros: `z` skipped zeros, then at most 100 digits -/
+theorem scanDigits_frac (neg : Bool) (fp' : Bytes) (hfp : ∀ b ∈ fp', isDigitB b = true) (hlen : fp'.length ≤ 100)
+    {E : Bytes} {e : Int} (hE : ExpTail E e) (z : Nat) :
+    scanDigits neg (fp' ++ E) true z =
+      .number { neg := neg, intDigits := [], fracDigits := List.replicate z 48 ++ fp', exp := e } false := by
+  unfold scanDigits
+  simp only [Bool.not_true, Bool.false_eq_true, if_false]
+  rw [collectDigits_run fp' hfp E hE.nondigit 0 [] false (by omega)]
+  simp only
+  rw [finishScan_tail neg 0 _ false z hE]
+  simp
+
+/-- digits before the point, the optional point and the digits after it: at most 100 digits in all -/
+theorem scanDigits_int (neg : Bool) (ip' fp : Bytes) (point : Bool) (hip : ∀ b ∈ ip', isDigitB b = true)
+    (hfp : ∀ b ∈ fp, isDigitB b = true) (hpt : point = false → fp = []) (hlen : ip'.length + fp.length ≤ 100)
+    {E : Bytes} {e : Int} (hE : ExpTail E e) :
+    scanDigits neg (ip' ++ ((if point then 46 :: fp else []) ++ E)) false 0 =
+      .number { neg := neg, intDigits := ip', fracDigits := fp, exp := e } false := by
+  unfold scanDigits
+  simp only [Bool.not_false, if_true]
+  cases point
+  · have hfp0 : fp = [] := hpt rfl
+    subst hfp0
+    simp only [Bool.false_eq_true, if_false, List.nil_append]
+    rw [collectDigits_run ip' hip E hE.nondigit 0 [] false (by simpa using hlen)]
+    have h46 : (E.head? == some 46) = false := by
+      rcases E with _ | ⟨b, t⟩
+      · rfl
+      · rcases hE.head b rfl with rfl | rfl <;> rfl
+    simp only [h46, Bool.false_eq_true, if_false]
+    rw [finishScan_tail neg _ _ false 0 hE]
+    simp
+  · simp only [if_true, List.cons_append]
+    rw [collectDigits_run ip' hip (46 :: (fp ++ E)) (by intro b hb; cases hb; rfl) 0 [] false (by omega)]
+    simp only [List.head?_cons, beq_self_eq_true, if_true, List.tail_cons]
+    rw [collectDigits_run fp hfp E hE.nondigit _ _ false (by omega)]
+    simp only
+    rw [finishScan_tail neg _ _ false 0 hE]
+    simp
+
+/-- **After the point** (the point has been passed and no non-zero digit seen yet): zeros are counted, then the
+digits are read.  All zeros and nothing after them: the early return of line 359. -/
+theorem frac_phase (neg : Bool) (fp : Bytes) (hfp : ∀ b ∈ fp, isDigitB b = true)
+    (hlen : (fp.dropWhile (· == 48)).length ≤ 100) {E : Bytes} {e : Int} (hE : ExpTail E e) :
+    resume neg (zeroLoop neg (fp ++ E) true 0) =
+      if fp ≠ [] ∧ fp.dropWhile (· == 48) = [] ∧ E = [] then .zero neg (-((min fp.length 6176 : Nat) : Int))
+      else .number { neg := neg, intDigits := [], fracDigits := fp, exp := e } false := by
+  obtain ⟨k, hk, hkl⟩ := zeros_split fp
+  have hd' := dropZeros_digits fp hfp
+  have hh' := dropZeros_head fp
+  generalize fp.dropWhile (· == 48) = fp' at hk hkl hd' hh' hlen ⊢
+  have hrest : (fp' ++ E).head? ≠ some 48 := by
+    rcases fp' with _ | ⟨d, t⟩
+    · simpa using hE.ne48
+    · simpa using hh'
+  -- the loop ends at `fp' ++ E` with `k` zeros counted, unless everything was a zero and the text ends
+  by_cases hz : fp ≠ [] ∧ fp' = [] ∧ E = []
+  · obtain ⟨h1, h2, h3⟩ := hz
+    subst h2 h3
+    rw [if_pos ⟨h1, rfl, rfl⟩]
+    obtain ⟨k', rfl⟩ : ∃ k', k = k' + 1 := by
+      rcases k with _ | k'
+      · exfalso; apply h1; rw [hk]; rfl
+      · exact ⟨k', rfl⟩
+    rw [hk, List.append_assoc, zeroLoop_zeros neg _ (by simp) k' true 0]
+    simp [afterZeros, resume]
+  · rw [if_neg hz]
+    have hloop : zeroLoop neg (fp ++ E) true 0 = .cont (fp' ++ E) true k := by
+      rw [hk, List.append_assoc]
+      rcases k with _ | k'
+      · simp only [List.replicate_zero, List.nil_append]
+        exact zeroLoop_head neg _ true 0 hrest
+      · rw [zeroLoop_zeros neg _ hrest k' true 0]
+        simp only [if_true, Nat.zero_add]
+        -- the character after the zeros is a digit, or the exponent letter
+        rcases hfe : fp' ++ E with _ | ⟨d, t2⟩
+        · exfalso
+          have h1 : fp' = [] := by
+            rcases fp' with _ | _
+            · rfl
+            · simp at hfe
+          have h2 : E = [] := by subst h1; simpa using hfe
+          exact hz ⟨by rw [hk]; simp, h1, h2⟩
+        · have hd46 : d ≠ 46 := by
+            rcases fp' with _ | ⟨d1, t1⟩
+            · have : E.head? = some d := by simp at hfe; rw [hfe]; rfl
+              rcases hE.head d this with rfl | rfl <;> decide
+            · have : d1 = d := by simp at hfe; exact hfe.1
+              subst this
+              have := hd' d1 (by simp)
+              intro h; subst h; simp [isDigitB] at this
+          simp [afterZeros, hd46]
+    rw [hloop]
+    simp only [resume]
+    rw [scanDigits_frac neg fp' hd' hlen hE k, ← hk]
+
+/-- **Digits before the point come first**: leading zeros are skipped (not counted), a point met while skipping
+switches to counting; otherwise the digits are read.  All zeros and nothing after them: the early returns of lines
+344 and 359. -/
+theorem int_phase (neg : Bool) (ip fp : Bytes) (point : Bool) (hip : ∀ b ∈ ip, isDigitB b = true)
+    (hfp : ∀ b ∈ fp, isDigitB b = true) (hpt : point = false → fp = []) (hne : ip ≠ [])
+    (hlen : ((ip ++ fp).dropWhile (· == 48)).length ≤ 100) {E : Bytes} {e : Int} (hE : ExpTail E e) :
+    resume neg (zeroLoop neg (ip ++ ((if point then 46 :: fp else []) ++ E)) false 0) =
+      if (ip ++ fp).dropWhile (· == 48) = [] ∧ E = [] then .zero neg (-((min fp.length 6176 : Nat) : Int))
+      else .number { neg := neg, intDigits := ip.dropWhile (· == 48), fracDigits := fp, exp := e } false := by
+  obtain ⟨k, hk, hkl⟩ := zeros_split ip
+  have hd' := dropZeros_digits ip hip
+  have hh' := dropZeros_head ip
+  rw [List.dropWhile_append] at hlen ⊢
+  generalize ip.dropWhile (· == 48) = ip' at hk hkl hd' hh' hlen ⊢
+  rcases ip' with _ | ⟨d, t⟩
+  · -- the integer digits are all zeros
+    simp only [List.isEmpty_nil, if_true] at hlen ⊢
+    obtain ⟨k', rfl⟩ : ∃ k', k = k' + 1 := by
+      rcases k with _ | k'
+      · exfalso; apply hne; rw [hk]; rfl
+      · exact ⟨k', rfl⟩
+    have hR : ((if point then 46 :: fp else []) ++ E).head? ≠ some 48 := by
+      cases point
+      · simpa using hE.ne48
+      · simp
+    rw [hk, List.append_nil, zeroLoop_zeros neg _ hR k' false 0]
+    simp only [Bool.false_eq_true, if_false]
+    cases point
+    · have hfp0 : fp = [] := hpt rfl
+      subst hfp0
+      simp only [Bool.false_eq_true, if_false, List.nil_append, List.dropWhile_nil, true_and, List.length_nil]
+      rcases hEe : E with _ | ⟨b, E'⟩
+      · simp [afterZeros, resume]
+      · have hb46 : b ≠ 46 := by
+          rcases hE.head b (by rw [hEe]; rfl) with rfl | rfl <;> decide
+        have := scanDigits_int neg [] [] false (by simp) (by simp) (fun _ => rfl) (by simp) hE
+        simp only [Bool.false_eq_true, if_false, List.nil_append, hEe] at this
+        simp [afterZeros, hb46, resume, this]
+    · simp only [if_true, List.cons_append]
+      by_cases hemp : (fp ++ E).isEmpty = true
+      · have h1 : fp = [] ∧ E = [] := by simpa using hemp
+        obtain ⟨rfl, rfl⟩ := h1
+        simp [afterZeros, resume]
+      · have hfr := frac_phase neg fp hfp hlen hE
+        have hne' : ¬ (fp = [] ∧ E = []) := by simpa using hemp
+        simp only [afterZeros, beq_self_eq_true, if_true, Bool.not_false, hemp, Bool.false_eq_true, if_false]
+        rw [hfr]
+        by_cases hc : List.dropWhile (· == 48) fp = [] ∧ E = []
+        · have hfpne : fp ≠ [] := fun h => hne' ⟨h, hc.2⟩
+          rw [if_pos ⟨hfpne, hc.1, hc.2⟩, if_pos hc]
+        · have hc' : ¬ (fp ≠ [] ∧ List.dropWhile (· == 48) fp = [] ∧ E = []) := fun h => hc ⟨h.2.1, h.2.2⟩
+          rw [if_neg hc', if_neg hc]
+  · -- there is a non-zero integer digit `d`
+    have hd48 : d ≠ 48 := by simpa using hh'
+    have hd46 : d ≠ 46 := by
+      have := hd' d (by simp)
+      intro h; subst h; simp [isDigitB] at this
+    simp only [List.isEmpty_cons, Bool.false_eq_true, if_false] at hlen ⊢
+    have hloop : zeroLoop neg (ip ++ ((if point then 46 :: fp else []) ++ E)) false 0 =
+        .cont (d :: t ++ ((if point then 46 :: fp else []) ++ E)) false 0 := by
+      rw [hk, List.append_assoc]
+      rcases k with _ | k'
+      · simp only [List.replicate_zero, List.nil_append]
+        exact zeroLoop_head neg _ false 0 (by simpa using hd48)
+      · rw [zeroLoop_zeros neg _ (by simpa using hd48) k' false 0]
+        simp [afterZeros, hd46]
+    rw [hloop]
+    simp only [resume]
+    rw [scanDigits_int neg (d :: t) fp point hd' hfp hpt (by simp only [List.length_append] at hlen; exact hlen) hE]
+    simp
+
+/-- the scanner on the text after the sign of a well-formed literal -/
+theorem scanBody_body (neg : Bool) (ip fp : Bytes) (point : Bool) (hip : ∀ b ∈ ip, isDigitB b = true)
+    (hfp : ∀ b ∈ fp, isDigitB b = true) (hpt : point = false → fp = []) (hne : ip ≠ [] ∨ fp ≠ [])
+    (hlen : ((ip ++ fp).dropWhile (· == 48)).length ≤ 100) {E : Bytes} {e : Int} (hE : ExpTail E e) :
+    scanBody neg (ip ++ ((if point then 46 :: fp else []) ++ E)) =
+      if (ip ++ fp).dropWhile (· == 48) = [] ∧ E = [] then .zero neg (-((min fp.length 6176 : Nat) : Int))
+      else .number { neg := neg, intDigits := ip.dropWhile (· == 48), fracDigits := fp, exp := e } false := by
+  rcases ip with _ | ⟨d, t⟩
+  · have hfpne : fp ≠ [] := by
+      rcases hne with h | h
+      · exact absurd rfl h
+      · exact h
+    have hp : point = true := by
+      cases point
+      · exact absurd (hpt rfl) hfpne
+      · rfl
+    subst hp
+    simp only [List.nil_append, if_true, List.cons_append, List.dropWhile_nil] at hlen ⊢
+    rw [scanBody_cons neg 46 _ (by decide)]
+    simp only [beq_self_eq_true, if_true]
+    rw [frac_phase neg fp hfp hlen hE]
+    by_cases hc : List.dropWhile (· == 48) fp = [] ∧ E = []
+    · rw [if_pos ⟨hfpne, hc.1, hc.2⟩, if_pos hc]
+    · have hc' : ¬ (fp ≠ [] ∧ List.dropWhile (· == 48) fp = [] ∧ E = []) := fun h => hc ⟨h.2.1, h.2.2⟩
+      rw [if_neg hc', if_neg hc]
+  · have hd : isDigitB d = true := hip d (by simp)
+    have hd' : 48 ≤ d ∧ d ≤ 57 := by simpa only [isDigitB, Bool.and_eq_true, decide_eq_true_eq] using hd
+    have h1 : (d != 46 && aboveNine d) = false := by
+      have : aboveNine d = false := by simp [aboveNine]; omega
+      simp [this]
+    have h2 : (d == 46) = false := by rw [beq_eq_false_iff_ne]; omega
+    rw [List.cons_append, scanBody_cons neg d _ h1]
+    simp only [h2, Bool.false_eq_true, if_false]
+    exact int_phase neg (d :: t) fp point hip hfp hpt (by simp) hlen hE
+
+/-- the first character is a sign, a point or a digit: lines 276–307 -/
+theorem scanCP_cons (c : Nat) (t : List Nat) (hc : c = 43 ∨ c = 45 ∨ c = 46 ∨ isDigitB c = true) :
+    scanCP (c :: t) =
+      if isInfText (utf8 t) then (if c == 43 then .inf false else if c == 45 then .inf true else .nan false)
+      else if hasSnanPrefix (utf8 t) then (if c == 45 then .snan true else .snan false)
+      else scanBody (c == 45) (if c == 45 || c == 43 then t else c :: t) := by
+  have hrange : c = 43 ∨ c = 45 ∨ c = 46 ∨ (48 ≤ c ∧ c ≤ 57) := by
+    simpa only [isDigitB, Bool.and_eq_true, decide_eq_true_eq] using hc
+  have hblank : isBlankCP c = false := by
+    unfold isBlankCP
+    rw [Bool.or_eq_false_iff, beq_eq_false_iff_ne, beq_eq_false_iff_ne]
+    omega
+  have hfirst : (c != 46 && c != 45 && c != 43 && aboveNine c) = false := by
+    by_cases h1 : c = 46
+    · simp [h1]
+    · by_cases h2 : c = 45
+      · simp [h2]
+      · by_cases h3 : c = 43
+        · simp [h3]
+        · have : aboveNine c = false := by simp [aboveNine]; omega
+          simp [this]
+  have hs : (c :: t).dropWhile isBlankCP = c :: t := by simp [hblank]
+  have hsl := slice_ps1 (c :: t) c t hs (by omega)
+  unfold scanCP
+  simp only [List.isEmpty_cons, Bool.false_eq_true, if_false, hs, hfirst]
+  unfold scanSigned
+  rw [hsl]
+
+/-- a text that begins with a character of the literal alphabet is none of the special spellings -/
+theorem not_special (t : Bytes) (h : ∀ b, t.head? = some b → lowerB b ≠ 105 ∧ lowerB b ≠ 115) :
+    isInfText t = false ∧ hasSnanPrefix t = false := by
+  rcases t with _ | ⟨b, t'⟩
+  · decide
+  · obtain ⟨h1, h2⟩ := h b rfl
+    refine ⟨?_, ?_⟩
+    · simp [isInfText, eqIgnoreCase, lInf, lInfinity, h1]
+    · unfold hasSnanPrefix getRange
+      split
+      · simp [eqIgnoreCase, lSnan, h2]
+      · rfl
+
+theorem litByte_lower (b : Nat) (h : b = 43 ∨ b = 45 ∨ b = 46 ∨ b = 69 ∨ b = 101 ∨ isDigitB b = true) :
+    lowerB b ≠ 105 ∧ lowerB b ≠ 115 := by
+  simp only [isDigitB, Bool.and_eq_true, decide_eq_true_eq] at h
+  unfold lowerB
+  split
+  · rename_i hb; simp only [Bool.and_eq_true, decide_eq_true_eq] at hb; omega
+  · omega
+
+/-! ### Agreement with the strict grammar: the theorem -/
+
+/-- the text contains the exponent letter -/
+def hasExpLetter (b : Bytes) : Bool := b.any (fun x => x == 69 || x == 101)
+
+theorem hasExpLetter_render (sh : Shape) (hwf : sh.WF) : hasExpLetter sh.render = sh.exp.isSome := by
+  obtain ⟨sg, ip, point, fp, x⟩ := sh
+  obtain ⟨hip, hfp, _, _, _⟩ := hwf
+  simp only at hip hfp
+  have hdig : ∀ ds : Bytes, (∀ b ∈ ds, isDigitB b = true) → ds.any (fun x => x == 69 || x == 101) = false := by
+    intro ds hds
+    rw [List.any_eq_false]
+    intro b hb
+    have := hds b hb
+    simp only [isDigitB, Bool.and_eq_true, decide_eq_true_eq] at this
+    simp only [Bool.or_eq_true, beq_iff_eq, not_or]
+    omega
+  have hsg : (signBytes sg).any (fun x => x == 69 || x == 101) = false := by
+    rcases sg with _ | _ | _ <;> decide
+  have hpt : (if point then 46 :: fp else []).any (fun x => x == 69 || x == 101) = false := by
+    cases point
+    · rfl
+    · simp only [if_true, List.any_cons, hdig fp hfp]; decide
+  simp only [hasExpLetter, Shape.render, List.any_append, hsg, hdig ip hip, hpt, Bool.false_or]
+  rcases x with _ | ⟨up, esg, ds⟩
+  · rfl
+  · cases up <;> simp [expBytes, ExpShape.bytes]
+
+/-- a digit string denotes 0 exactly when it consists of zeros -/
+theorem digitsVal_eq_zero_iff (ds : Bytes) (hds : ∀ b ∈ ds, isDigitB b = true) :
+    digitsVal ds = 0 ↔ ds.dropWhile (· == 48) = [] := by
+  constructor
+  · intro h
+    rcases hq : ds.dropWhile (· == 48) with _ | ⟨d, t⟩
+    · rfl
+    · exfalso
+      have hd : isDigitB d = true := dropZeros_digits ds hds d (by rw [hq]; simp)
+      have h48 : d ≠ 48 := by
+        have := dropZeros_head ds
+        rw [hq] at this
+        simpa using this
+      have hge := digitsVal_ge d t hd h48
+      rw [← hq, digitsVal_dropZeros, h] at hge
+      have : 0 < 10 ^ t.length := Nat.pow_pos (by decide)
+      omega
+  · intro h
+    rw [← digitsVal_dropZeros, h]
+    rfl
+
+/-- the scanner on a well-formed literal text, by its parts -/
+theorem scanCP_render (sh : Shape) (hwf : sh.WF) (hlen : sh.literal.sigDigits.length ≤ 100)
+    (hv : ∀ y, sh.exp = some y → digitsVal y.digits < 1000000) :
+    scanCP sh.render =
+      if sh.literal.sigDigits = [] ∧ sh.exp = none then
+        .zero (sh.sign == some true) (-((min sh.fp.length 6176 : Nat) : Int))
+      else .number { sh.literal with intDigits := sh.ip.dropWhile (· == 48) } false := by
+  have hall := literal_bytes sh.render sh.literal (parse_render sh hwf)
+  obtain ⟨sg, ip, point, fp, x⟩ := sh
+  obtain ⟨hip, hfp, hne, hpt, hx⟩ := hwf
+  simp only at hip hfp hne hpt hx hv
+  simp only [Shape.literal, Literal.sigDigits] at hlen ⊢
+  have hE := expTail_of_shape x hx hv
+  have hbody := scanBody_body (sg == some true) ip fp point hip hfp hpt hne hlen hE
+  have hEx : expBytes x = [] ↔ x = none := by
+    rcases x with _ | y
+    · simp [expBytes]
+    · simp [expBytes, ExpShape.bytes]
+  simp only [hEx] at hbody
+  simp only [Shape.render] at hall ⊢
+  generalize hb : ip ++ ((if point then 46 :: fp else []) ++ expBytes x) = body at hall hbody ⊢
+  -- the text after the sign begins with a digit or the point
+  obtain ⟨b0, bt, hb0, hbt⟩ : ∃ b0 bt, body = b0 :: bt ∧ (b0 = 46 ∨ isDigitB b0 = true) := by
+    rcases ip with _ | ⟨d, t⟩
+    · have hp : point = true := by
+        cases point
+        · rcases hne with h | h
+          · exact absurd rfl h
+          · exact absurd (hpt rfl) h
+        · rfl
+      subst hp
+      exact ⟨46, _, by rw [← hb]; rfl, Or.inl rfl⟩
+    · exact ⟨d, _, by rw [← hb]; rfl, Or.inr (hip d (by simp))⟩
+  have hascii : ∀ (u : Bytes), (∀ b ∈ u, b ∈ signBytes sg ++ body) → utf8 u = u := by
+    intro u hu
+    apply utf8_ascii
+    intro b hbu
+    have := hall b (hu b hbu)
+    simp only [isDigitB, Bool.and_eq_true, decide_eq_true_eq] at this
+    omega
+  have hhead : ∀ (u : Bytes), (∀ b ∈ u, b ∈ signBytes sg ++ body) →
+      ∀ b, u.head? = some b → lowerB b ≠ 105 ∧ lowerB b ≠ 115 := by
+    intro u hu b hbu
+    exact litByte_lower b (hall b (hu b (List.mem_of_mem_head? hbu)))
+  have hb0' : b0 ≠ 45 ∧ b0 ≠ 43 := by
+    rcases hbt with h | h
+    · subst h; decide
+    · simp only [isDigitB, Bool.and_eq_true, decide_eq_true_eq] at h; omega
+  rcases sg with _ | sgn
+  · -- no sign
+    simp only [signBytes, List.nil_append] at hascii hhead ⊢
+    subst hb0
+    have hsub : ∀ b ∈ bt, b ∈ b0 :: bt := fun b hb => List.mem_cons_of_mem _ hb
+    rw [scanCP_cons b0 bt (by rcases hbt with h | h <;> simp [h]), hascii bt hsub,
+      (not_special bt (hhead bt hsub)).1, (not_special bt (hhead bt hsub)).2]
+    have h45 : (b0 == 45) = false := by rw [beq_eq_false_iff_ne]; exact hb0'.1
+    have h43 : (b0 == 43) = false := by rw [beq_eq_false_iff_ne]; exact hb0'.2
+    simp only [Bool.false_eq_true, if_false, h45, h43, Bool.or_self]
+    exact hbody
+  · -- a sign
+    have hsb : signBytes (some sgn) = [if sgn then 45 else 43] := by cases sgn <;> rfl
+    rw [hsb] at hascii hhead ⊢
+    simp only [List.singleton_append] at hascii hhead ⊢
+    have hsub : ∀ b ∈ body, b ∈ (if sgn then 45 else 43) :: body := fun b hb => List.mem_cons_of_mem _ hb
+    rw [scanCP_cons _ body (by cases sgn <;> simp), hascii body hsub,
+      (not_special body (hhead body hsub)).1, (not_special body (hhead body hsub)).2]
+    cases sgn <;> simpa using hbody
+
+/-- the UTF-8 bytes of a text given as a list of characters -/
+def textBytes (s : List Char) : Bytes := utf8 (s.map Char.toNat)
+
+/-- **Agreement with the strict grammar.**  Let the text be a well-formed literal `l` (strict grammar
+`parseLiteral` on its UTF-8 bytes) with at most 100 significant digits and an exponent below `10^6` in magnitude.
+Then the code reads exactly this literal, with the leading zeros of the integer part dropped: same sign, same
+fraction digits, same exponent, no sticky flag — except when every digit is `0` and there is no exponent part: then the
+zero-skipping loop returns a zero at once, with exponent `−(number of fraction digits)`, not below −6176.
+
+(Beyond the hypotheses: the code stores only 100 digits, and reads the first exponent digit, skips zeros only if that
+digit was `0`, then reads at most six more digits.) -/
+theorem scan_agrees_strict (s : List Char) (l : Literal) (h : parseLiteral (textBytes s) = some l)
+    (hd : l.sigDigits.length ≤ 100) (he : l.exp.natAbs < 1000000) :
+    scanText s =
+      if l.coeff = 0 ∧ hasExpLetter (textBytes s) = false then .zero l.neg (max l.exp10 (-6176))
+      else .number { l with intDigits := l.intDigits.dropWhile (· == 48) } false := by
+  obtain ⟨sh, hwf, hr, hl⟩ := parse_sound _ l h
+  have hasc : ∀ b ∈ textBytes s, b < 128 := by
+    intro b hb
+    have := literal_bytes _ l h b hb
+    simp only [isDigitB, Bool.and_eq_true, decide_eq_true_eq] at this
+    omega
+  have hcp : s.map Char.toNat = sh.render := by
+    rw [hr]; exact (utf8_ascii _ (ascii_of_utf8 _ hasc)).symm
+  subst hl
+  have hv : ∀ y, sh.exp = some y → digitsVal y.digits < 1000000 := by
+    intro y hy
+    simp only [Shape.literal, hy, expVal, ExpShape.val] at he
+    split at he <;> omega
+  have hcond : (sh.literal.sigDigits = [] ∧ sh.exp = none) ↔
+      (sh.literal.coeff = 0 ∧ hasExpLetter (textBytes s) = false) := by
+    have h1 : sh.literal.sigDigits = [] ↔ sh.literal.coeff = 0 := by
+      unfold Literal.sigDigits Literal.coeff
+      refine (digitsVal_eq_zero_iff _ ?_).symm
+      intro b hb
+      rcases List.mem_append.1 hb with hb | hb
+      · exact hwf.1 b hb
+      · exact hwf.2.1 b hb
+    have h2 : sh.exp = none ↔ hasExpLetter (textBytes s) = false := by
+      rw [← hr, hasExpLetter_render sh hwf]
+      cases sh.exp <;> simp
+    rw [h1, h2]
+  unfold scanText
+  rw [hcp, scanCP_render sh hwf hd hv]
+  by_cases hc : sh.literal.sigDigits = [] ∧ sh.exp = none
+  · rw [if_pos hc, if_pos (hcond.1 hc)]
+    have : sh.literal.exp10 = -(sh.fp.length : Int) := by
+      simp [Literal.exp10, Shape.literal, hc.2, expVal]
+    rw [this]
+    congr 1
+    omega
+  · rw [if_neg hc, if_neg (fun h => hc (hcond.2 h))]
+    rfl
+
+/-- **What the numeric phase is given is the value of the literal** (non-zero literals): the code goes on to the
+numeric phase with the sign, the coefficient and the exponent of the literal. -/
+theorem scan_agrees_value (s : List Char) (l : Literal) (h : parseLiteral (textBytes s) = some l)
+    (hd : l.sigDigits.length ≤ 100) (he : l.exp.natAbs < 1000000) (hc : l.coeff ≠ 0) :
+    ∃ l', scanText s = .number l' false ∧ l'.neg = l.neg ∧ l'.coeff = l.coeff ∧ l'.exp10 = l.exp10 := by
+  refine ⟨{ l with intDigits := l.intDigits.dropWhile (· == 48) }, ?_, rfl, ?_, rfl⟩
+  · rw [scan_agrees_strict s l h hd he, if_neg (fun h => hc h.1)]
+  · simp only [Literal.coeff, digitsVal_append, digitsVal_dropZeros]
+
+/-- **Zero literals**: either the early return — a zero with the sign of the literal and its exponent, not below
+−6176 — or the numeric phase is entered with coefficient 0 and the exponent of the literal (and returns a zero with
+that exponent clamped into range). -/
+theorem scan_agrees_zero (s : List Char) (l : Literal) (h : parseLiteral (textBytes s) = some l)
+    (hd : l.sigDigits.length ≤ 100) (he : l.exp.natAbs < 1000000) (hc : l.coeff = 0) :
+    scanText s = .zero l.neg (max l.exp10 (-6176)) ∨
+      ∃ l', scanText s = .number l' false ∧ l'.neg = l.neg ∧ l'.coeff = 0 ∧ l'.exp10 = l.exp10 := by
+  rw [scan_agrees_strict s l h hd he]
+  by_cases hx : hasExpLetter (textBytes s) = false
+  · exact Or.inl (by rw [if_pos ⟨hc, hx⟩])
+  · refine Or.inr ⟨{ l with intDigits := l.intDigits.dropWhile (· == 48) }, by rw [if_neg (fun h => hx h.2)], rfl,
+      ?_, rfl⟩
+    rw [← hc]
+    simp only [Literal.coeff, digitsVal_append, digitsVal_dropZeros]
+
 end Dec.C04Scan
